@@ -493,6 +493,8 @@ def initial_blob(name):
         b = F.deck_names_1_5_3()
     elif name == "rich":
         b = _rich_deck()
+    elif name == "ten_each":
+        b = _ten_each_deck()
     elif name.startswith("corpus:"):
         b = F.read_bytes(os.path.join(F.REPO, name[len("corpus:"):]))
     else:
@@ -510,6 +512,24 @@ def _rich_deck():
              {"op": "add_slide", "layout": 6}]
     steps += [{"op": "add_picture", "img": "I%d" % i, "via": "stream"} for i in range(10)]
     steps += [{"op": "add_chart", "kind": "xy"}, {"op": "add_textbox", "text": "last"}]
+    for op in steps:
+        lab = apply(live, op)
+        assert lab not in (SKIP,) and not str(lab).startswith("UNEXPECTED"), (op, lab)
+    return F.save_bytes(live.prs)
+
+
+def _ten_each_deck():
+    """Eleven slides. Slides 2..11 each hold a text box, a chart (charts / embedded workbooks 1..10) and notes (notes
+    slides 1..10): every allocator that numbers parts of a kind is about to hand out its first number after 10 (string
+    order != numeric order). Slide 1 has neither, and a GAP in its relationship ids (rId1, rId2, rId4): a run hyperlink
+    was added before a picture and cleared afterwards."""
+    live = Live(F.open_prs(F.read_bytes(F.DEFAULT_PPTX)), "ten-each-builder")
+    steps = [{"op": "add_slide", "layout": 6}, {"op": "add_textbox", "text": "first"},
+             {"op": "hlink_run", "which": "first", "url": "http://gap.example/"}, {"op": "add_picture", "img": "A", "via": "stream"},
+             {"op": "hlink_run", "which": "first", "url": None}]
+    for i in range(10):
+        steps += [{"op": "add_slide", "layout": 6}, {"op": "add_textbox", "text": "t%d" % i},
+                  {"op": "add_chart", "kind": "bar"}, {"op": "notes_text", "text": "n%d" % i}]
     for op in steps:
         lab = apply(live, op)
         assert lab not in (SKIP,) and not str(lab).startswith("UNEXPECTED"), (op, lab)
